@@ -14,7 +14,8 @@ META = {
             'address set (sorted, disjoint, <= limit, one 10000-block, superset of requested, nothing farther than reach). The small '
             'domain (<=3 ranges, windows at a bank start / across a 10000 boundary / around 40001, counts 1..4, reach 0..4, limit None/1..5) '
             'is enumerated completely, so every relation between ranges (nested, overlapping, adjacent, duplicate, disjoint) occurs; '
-            'large seeded sets add the default per-bank limits. Held-on-observed, not a proof for larger sets.',
+            'large seeded sets add the default per-bank limits. The real poller_modbus thread is then run with only its device read replaced by a recorder: the reads it issues per cycle '
+            'are judged by the same oracle against the polled addresses, and afterwards exactly the polled addresses hold the device values. Held-on-observed, not a proof for larger sets.',
     'note': 'Trusts the harness oracle (30 lines of set arithmetic) and that bank = address//10000 as the library defines it; the empty set is not judged.',
 }
 LEVEL = 'exploration'
@@ -26,7 +27,7 @@ RULE = ('quick/thorough: exhaustive enumeration of all multisets of <=3 ranges (
 ASSUMPTIONS = ['register bank = address // 10000, as remote/plc_modbus.merge defines it',
                'the empty range set is not judged (merge([]) raises StopIteration->RuntimeError; the poller never passes it)']
 REQUIRED = ['merge:nested', 'merge:overlap', 'merge:adjacent', 'merge:disjoint', 'merge:duplicate',
-            'merge:within-reach-gap', 'merge:limit-split', 'shatter:calls']
+            'merge:within-reach-gap', 'merge:limit-split', 'shatter:calls', 'poller:configs']
 TIMEOUT = {'quick': 300, 'thorough': 1800}
 SOFT = {'quick': 25, 'thorough': 420}
 
@@ -207,6 +208,83 @@ def run(ctx):
         if ctx.want_sample() and i % 50 == 7 and len(ranges) <= 5:
             ctx.sample({'merge': [list(r) for r in ranges], 'reach': reach, 'limit': limit,
                         'output': [list(r) for r in merge(list(ranges), reach=reach, limit=limit)]})
+    poller_part(ctx, 6 if quick else 400)
+
+
+def value_of(address):
+    return (address * 2654435761) % 65521
+
+
+def poller_part(ctx, rounds):
+    """The real poller_modbus thread, with only the device I/O (_read) replaced by a recorder: what it asks the device for must be
+    a correct merge of the polled addresses, and afterwards every polled address -- and no other -- holds the device's value."""
+    import time
+    try:
+        from cpppo.remote import plc_modbus
+        from cpppo.remote.pymodbus_fixes import modbus_client_tcp
+    except Exception as exc:                                  # pymodbus absent: this part cannot run
+        ctx.notes.append('poller part skipped: %r' % (exc,))
+        return
+    rng = ctx.rng
+
+    class Recorder(plc_modbus.poller_modbus):
+        def __init__(self, *a, **k):
+            self.calls = []
+            super().__init__(*a, **k)
+
+        def _read(self, address, count=1, **kw):
+            self.calls.append((address, count))
+            return [value_of(a) for a in range(address, address + count)]
+
+    for i in range(rounds):
+        if ctx.expired():
+            break
+        base = rng.choice([1, 10001, 30001, 40001, 100001, 400001])
+        span = rng.choice([10, 150, 400, 5000])
+        addrs = set()
+        for _ in range(rng.choice([1, 2, 5, 20, 60])):
+            a = base + rng.randrange(span)
+            for d in range(rng.choice([1, 1, 2, 8, 130])):
+                if (a + d) // 10000 == a // 10000:
+                    addrs.add(a + d)
+        if rng.random() < 0.3:
+            addrs.add(rng.choice([9999, 19999, 39999, 10001, 40001]))
+        reach = rng.choice([1, 2, 10, 100])
+        wit = {'poller': True, 'addresses': sorted(addrs), 'reach': reach}
+        p = Recorder('verif', client=modbus_client_tcp(host='127.0.0.1', port=9), reach=reach)
+        try:
+            for a in sorted(addrs, key=lambda x: rng.random()):
+                p.poll(a)
+            p.rate = 0.002
+            deadline = time.time() + 10
+            while p.counter < 2 and time.time() < deadline:
+                time.sleep(0.002)
+            cycles = p.counter
+        finally:
+            p.stop()
+            p.join(timeout=5)
+        if cycles < 2:
+            ctx.inconclusive_because('the poller thread completed %d cycles in 10 s' % cycles)
+            return
+        calls = sorted(set(p.calls))
+        ctx.count('poller:cycles', cycles)
+        ctx.count('poller:device-reads', len(p.calls))
+        # what was asked of the device, judged as a merge of the polled addresses
+        judge_merge(ctx, lambda ranges, reach=None, limit=None: calls, tuple((a, 1) for a in sorted(addrs)), reach, None)
+        stored = {a: v for a, v in p._data.items()}
+        if set(stored) != addrs:
+            ctx.violation('poller-stores-unknown-address', 'polled %d addresses, the table now has %d: extra %r missing %r' % (
+                len(addrs), len(stored), sorted(set(stored) - addrs)[:8], sorted(addrs - set(stored))[:8]), wit)
+            return
+        wrong = [a for a in sorted(addrs) if stored[a] != value_of(a)]
+        if wrong:
+            ctx.violation('poller-polled-address-without-its-value', 'after %d complete cycles addresses %r hold %r, the device has %r' % (
+                cycles, wrong[:6], [stored[a] for a in wrong[:6]], [value_of(a) for a in wrong[:6]]), wit)
+            return
+        ctx.count('poller:configs')
+        ctx.case(('poller', tuple(sorted(addrs)), reach), nontrivial=len(addrs) > 1)
+        if ctx.want_sample() and len(addrs) <= 8:
+            ctx.sample({'poller_addresses': sorted(addrs), 'reach': reach, 'device_reads_per_cycle': [list(c) for c in calls]})
 
 
 def replay(ctx, witness):
